@@ -532,6 +532,7 @@ func TestVerifC04Admin(t *testing.T) {
 				// an accepted edit is answered before it is applied, and applying it may restart the API listener:
 				// let the Core finish before the next call (a request caught by that restart is not this property's business)
 				core.Barrier()
+				tr.CloseIdleConnections() // the listener may have been replaced: do not reuse its connections
 			}
 		}
 
